@@ -70,10 +70,22 @@ func (c *Conn) Read(b []byte) (int, error) {
 	return int(n), err
 }
 
+// writerOnly hides every method of Conn except Write.
+type writerOnly struct {
+	io.Writer
+}
+
 // ReadFrom reads data from r until EOF or error, optionally simulating
 // connection latency and throttling read throughput based on desired bandwidth
 // constraints.
 func (c *Conn) ReadFrom(r io.Reader) (int64, error) {
+	// A response that is being traffic shaped has to go through Write, which
+	// keeps the byte offset and performs the throttles and actions. bufio.Writer
+	// hands the rest of a body to ReadFrom once its buffer is empty.
+	if c.Context != nil && c.Context.Shaping {
+		return io.Copy(writerOnly{c}, r)
+	}
+
 	c.ronce.Do(c.sleepLatency)
 
 	var total int64
